@@ -27,7 +27,7 @@ ASSUMPTIONS = ['the peer model only sends what a conforming peer could have sent
                'an implementation that lets uncredited racing DATA exhaust the whole connection window is taken to '
                'have stopped replenishing it']
 TIERS = {'quick': {'cases': 6000, 'size': 300},
-         'thorough': {'cases': 300000, 'size': 400}}
+         'thorough': {'cases': 900000, 'size': 400}}
 
 
 class PeerStream:
